@@ -113,3 +113,33 @@ Theorem C01_case_hypotheses_sound :
   wf_mesh nv faces /\ mesh_of nv faces (mkMesh nv faces edges (gen_corners faces)) /\ edges_exact faces edges.
 Proof. exact case_hypotheses_sound. Qed.
 Print Assumptions C01_case_hypotheses_sound.
+
+(* 11. "A query on a freshly built mesh never fails where the same query succeeds after other queries have been made":
+       on a fresh mesh every query is answered exactly as after ANY script of public queries (all 35 calls of the
+       connectivity and border API, clear() / clear_boundary_data() included). *)
+Theorem C01_fresh_as_later :
+  forall nv faces m sortflag, wf_mesh nv faces -> mesh_of nv faces m ->
+  forall (qs : list query) (q : query),
+    snd (query_step m sortflag empty_cache q) = snd (query_step m sortflag (run_script m sortflag qs) q).
+Proof. exact fresh_as_later. Qed.
+Print Assumptions C01_fresh_as_later.
+
+(* 12. The rotational-order clause for border vs interior vertices: the sorted corner ring of a vertex is an open fan
+       (first corner after an incoming border edge, last corner before an outgoing one) exactly when is_vertex_on_border
+       answers True, and a closed ring exactly when it answers False - rings and border classification never disagree. *)
+Theorem C01_ring_kind_is_border_class :
+  forall nv faces m, wf_mesh nv faces -> mesh_of nv faces m -> edges_exact faces (m_edges m) ->
+  forall A l, 0 <= A < nv -> p_vertex_to_corners m true A = Ok (Some l) -> l <> nil ->
+    ring_spec faces A l
+    /\ (ring_open faces l <-> p_is_vertex_on_border m true A = Ok true)
+    /\ (ring_closed faces l <-> p_is_vertex_on_border m true A = Ok false).
+Proof. exact ring_kind_is_border_class. Qed.
+Print Assumptions C01_ring_kind_is_border_class.
+
+(* 13. No failure on a manifold surface: every query the property names, when it names an element of the mesh (an existing
+       corner, a vertex id in range, an existing face; any vertex pair / tuple for the keyed ones), is ANSWERED - its pure
+       answer is a value, not an exception - sorting on or off; with theorem 1 this holds in every reachable cache state. *)
+Theorem C01_named_queries_answered :
+  forall nv faces m sortflag, wf_mesh nv faces -> mesh_of nv faces m -> named_queries_answered nv faces m sortflag.
+Proof. exact named_answered. Qed.
+Print Assumptions C01_named_queries_answered.
